@@ -2,7 +2,7 @@
 From Coq Require Import Reals ZArith String List Bool Lra.
 Require Import Py.PyAst Py.PyVal Py.PySem Py.XLemmas.
 Require Import Py.Sym.
-Require Import C02.Src C02.Model C02.Edge C02.BoxN.
+Require Import C02.Src C02.Model C02.Edge C02.BoxN C02.GuardN.
 Import ListNotations.
 Open Scope string_scope.
 Open Scope R_scope.
@@ -134,3 +134,36 @@ Qed.
 Print Assumptions C02_box_any_length.
 Example C02_box_any_length_nonvacuous : box_ok [1; 2; 3; 4; 5] [0; 0; 0; 0; 5] [1; 9; 9; 9; 9] /\ ~ box_ok [1; 2; 3; 4; 5] [0; 0; 0; 0; 0] [9; 9; 9; 9; 4].
 Proof. cbn. lra. Qed.
+
+(* THE CURVED-LCDM GUARD FOR SAMPLES WITH ANY NUMBER OF LENSES (the loop over self._kwargs_lens_list taken by induction; every lens has both
+   source redshifts, one of them, or none - [zstar] is its highest source redshift: z_source2, else z_source, else 1100).  Inside the box:
+     - E(z)^2 <= 0 at the highest source redshift of SOME lens, or 1 - om - ok <= 0: -inf, and args2kwargs is the only thing evaluated;
+     - otherwise the lens sample is evaluated exactly once (after args2kwargs and the cosmology).
+   The empty sample (supernovae / KDE only) is the case specs = []. *)
+Theorem C02_olcdm_guard_any_number_of_lenses : forall (Ls om ok h l0 l1 l2 u0 u1 u2 x0 x1 x2 : R) (specs : list spec) rg cu,
+  inside_box l0 l1 l2 u0 u1 u2 x0 x1 x2 ->
+  ((exists s, In s specs /\ E2 om ok (zstar s) <= 0) \/ 1 - om - ok <= 0 ->
+   yields (Gt Ls om ok h) 100 (CFun src_CosmoLikelihood_likelihood) (Some (selfG l0 l1 l2 u0 u1 u2 specs)) [argsG x0 x1 x2] [] rg cu
+     (VNum NegInf) cu (logA x0 x1 x2)) /\
+  ((forall s, In s specs -> 0 < E2 om ok (zstar s)) -> 0 < 1 - om - ok ->
+   exists log,
+   yields (Gt Ls om ok h) 100 (CFun src_CosmoLikelihood_likelihood) (Some (selfG l0 l1 l2 u0 u1 u2 specs)) [argsG x0 x1 x2] [] rg cu
+     (Model.num Ls) cu log /\ map fst log = ["lens"; "cosmo"; "args2kwargs"]).
+Proof.
+  intros Ls om ok h l0 l1 l2 u0 u1 u2 x0 x1 x2 specs rg cu Hbox. split.
+  - intros Hrej. apply guard_rejects_any; [exact Hbox|]. destruct Hrej as [[s [Hin Hs]]|Hode].
+    + left. destruct (all_pos om ok specs) eqn:Ha; [|reflexivity]. exfalso.
+      pose proof (proj1 (all_pos_spec om ok specs) Ha s Hin) as Hp. rewrite cutI_E2 in Hp. lra.
+    + right. rewrite odeI_ode. exact Hode.
+  - intros Hall Hode. apply guard_passes_any; [exact Hbox | | rewrite odeI_ode; exact Hode].
+    apply all_pos_spec. intros s Hin. rewrite cutI_E2. apply Hall, Hin.
+Qed.
+Print Assumptions C02_olcdm_guard_any_number_of_lenses.
+Example C02_guard_any_number_nonvacuous :
+  (exists s, In s [(Some 2, None); (Some (1/2), Some 4); (None, None)] /\ E2 (1/10) (-55/100) (zstar s) <= 0)
+  /\ (forall s, In s [(Some 2, None); (Some (1/2), Some 4)] -> 0 < E2 (3/10) 0 (zstar s)).
+Proof.
+  split.
+  - exists (Some 2, None). split; [left; reflexivity|]. unfold E2, zstar. cbn [pow]. lra.
+  - intros s [<-|[<-|[]]]; unfold E2, zstar; cbn [pow]; lra.
+Qed.
